@@ -131,6 +131,7 @@ def generate(ck):
                 "ppc": ppc,
                 "pressures": [wl.f(v) for v in p],
                 "contains_pb": with_pb,
+                "threads": [wl.oil_params(rng) for _ in range(3)] if i % 90 == 17 else None,
             }
         )
         k += 1
@@ -193,6 +194,14 @@ def _callables(desc):
 
 
 def run_case(ck, desc):
+    if desc.get("threads"):
+        # array and scalar calls of the same correlations from four threads at once (each its own fluid)
+        from bluebonnet.fluids import oil as _oil
+
+        sets = [desc["oil"]] + desc["threads"]
+        pbs = [float(_oil.pressure_bubblepoint_Standing(*o)) for o in sets]
+        P = np.array([0.0, 15.0, 0.5 * min(pbs), min(pbs), 0.5 * (min(pbs) + max(pbs)), max(pbs), 1.7 * max(pbs)])
+        wl.judge_thread_groups(ck, desc, wl.correlation_thread_groups(sets, [(desc["water_T"], desc["salinity"])] + [(100.0 + 60 * k, 4.0 * k) for k in range(1, 4)], P, derivatives=True))
     view, buf = _array(desc)
     read_only = (len(desc["pressures"]) + int(desc["salinity"] * 10)) % 5 == 0
     if read_only:
